@@ -579,3 +579,69 @@ pub async fn run_app_flow(reg: Arc<Registry>, flow: Arc<Flow>, client_port: u16,
     flow.app.lock().unwrap().closed_at = Some(Instant::now());
     drop(s);
 }
+
+/// A target that speaks first: on accept it sends `nonce | connection index | n positional bytes` and closes.
+/// Used for flows in which the application sends nothing at all.
+pub async fn start_greeter(nonce: u64, n: usize) -> std::io::Result<TargetHandle> {
+    let l = TcpListener::bind("127.0.0.1:0").await?;
+    let port = l.local_addr()?.port();
+    let t = tokio::spawn(async move {
+        let mut idx = 0u64;
+        loop {
+            if let Ok((mut s, _)) = l.accept().await {
+                idx += 1;
+                let i = idx;
+                tokio::spawn(async move {
+                    let mut head = nonce.to_be_bytes().to_vec();
+                    head.extend_from_slice(&i.to_be_bytes());
+                    let mut body = vec![0u8; n];
+                    stream_fill(nonce, 0xF1F1_0000 + i, DIR_S2C, 0, &mut body);
+                    let _ = s.write_all(&head).await;
+                    let _ = s.write_all(&body).await;
+                    let _ = s.shutdown().await;
+                    let mut sink = [0u8; 1024];
+                    while let Ok(n) = s.read(&mut sink).await {
+                        if n == 0 {
+                            break;
+                        }
+                    }
+                });
+            }
+        }
+    });
+    Ok(TargetHandle { port, tasks: vec![t] })
+}
+
+/// Application that completes the local handshake and then only listens. Ok(bytes verified) or the symptom.
+pub async fn run_silent_app(client_port: u16, kind: LocalKind, host: &str, port: u16, nonce: u64, n: usize, wait: Duration) -> Result<usize, String> {
+    let mut s = TcpStream::connect(("127.0.0.1", client_port)).await.map_err(|e| format!("connect to client: {e}"))?;
+    match tokio::time::timeout(Duration::from_secs(20), local_handshake(&mut s, kind, host, port)).await {
+        Ok(Ok(())) => {}
+        Ok(Err(e)) => return Err(format!("handshake:{:?}", e)),
+        Err(_) => return Err("handshake:no reply within 20 s".into()),
+    }
+    let mut got = Vec::new();
+    let mut buf = [0u8; 65536];
+    let t0 = Instant::now();
+    loop {
+        match tokio::time::timeout(wait.saturating_sub(t0.elapsed()), s.read(&mut buf)).await {
+            Err(_) => return Err(if got.is_empty() { "target-that-speaks-first-is-never-heard".into() } else { "answer-incomplete-at-application".into() }),
+            Ok(Ok(0)) => break,
+            Ok(Ok(k)) => got.extend_from_slice(&buf[..k]),
+            Ok(Err(e)) => return Err(format!("read: {e}")),
+        }
+    }
+    if got.len() < 16 || got[..8] != nonce.to_be_bytes() {
+        return Err(if got.is_empty() { "end-of-stream-without-the-targets-bytes".into() } else { "application-received-wrong-bytes:corruption".into() });
+    }
+    let i = u64::from_be_bytes(got[8..16].try_into().unwrap());
+    let mut want = vec![0u8; n];
+    stream_fill(nonce, 0xF1F1_0000 + i, DIR_S2C, 0, &mut want);
+    if got[16..] == want[..] {
+        Ok(n)
+    } else if want.starts_with(&got[16..]) {
+        Err("answer-incomplete-at-application".into())
+    } else {
+        Err("application-received-wrong-bytes:corruption".into())
+    }
+}
